@@ -20,10 +20,15 @@ def gen_cfg(rnd, max_nodes=4, allow_advance=True, steps=None):
     conns = {}
 
     def mk(o, i, skip):
+        if rnd.random() < 0.3:
+            # heavy jitter: one slow message overtaken (and held back by FIFO) by several fast ones
+            Pm = periods[o]
+            delays = [rnd.choice([2, 3]) * Pm + rnd.choice([0, 1])] + [rnd.choice([0, 0, 1]) for _ in range(rnd.choice([2, 3, 4]))]
+        else:
+            delays = [rnd.choice([0, 0, 1, 2, 3, 5]) for _ in range(rnd.choice([1, 2, 4]))]
         conns[f"n{o}>n{i}"] = dict(out=f"n{o}", **{"in": f"n{i}"}, blocking=rnd.random() < 0.35, skip=skip,
                                    jitter=rnd.choice(["LATEST", "LATEST", "BUFFER"]), window=rnd.choice([1, 2, 3]),
-                                   exp=rnd.choice([0, 1, 2]),
-                                   delays=[rnd.choice([0, 0, 1, 2, 3, 5]) for _ in range(rnd.choice([1, 2, 4]))])
+                                   exp=rnd.choice([0, 1, 2]), delays=delays)
     for i in range(1, k):
         for o in range(0, i):
             if rnd.random() < 0.6 or o == i - 1: mk(o, i, False)
@@ -51,6 +56,7 @@ def features(cfg):
     if any(max(n["delays"]) > n["period"] for n in N): f.add("overrun")
     if any(0 in n["delays"] for n in N) or any(0 in c["delays"] for c in C): f.add("zero-delay")
     if any(len(set(c["delays"])) > 1 for c in C): f.add("comm-jitter")
+    if any(max(c["delays"]) - min(c["delays"]) >= 2 * cfg["nodes"][c["out"]]["period"] for c in C): f.add("overtaking-jitter")
     return sorted(f)
 
 
